@@ -11,11 +11,11 @@ namespace Pt
 /-! ## heaps and pushes -/
 
 theorem node_push_lt (H : Heap) (x : NodeData) {k : Nat} (hk : k < H.size) :
-    (H.push x).node k = H.node k := by
+    Heap.node (H.push x) k = H.node k := by
   unfold Heap.node
   simp [Array.getElem?_push, Nat.ne_of_lt hk]
 
-theorem node_push_eq (H : Heap) (x : NodeData) : (H.push x).node H.size = x := by
+theorem node_push_eq (H : Heap) (x : NodeData) : Heap.node (H.push x) H.size = x := by
   unfold Heap.node
   simp
 
@@ -34,13 +34,15 @@ theorem wf_push {H : Heap} (hw : WFHeap H) (x : NodeData)
   · subst heq
     rw [node_push_eq] at he
     exact hx e he
-  · have : ((H.push x).node i).kids = [] := node_ge _ (by simp; omega)
+  · have : (Heap.node (H.push x) i).kids = [] := node_ge _ (by simp; omega)
     rw [this] at he
     simp at he
 
 theorem kidsFn_allSel (H : Heap) (j : Nat) : kidsFn allSel H j = (H.node j).kids.map (·.2) := by
   unfold kidsFn Heap.edges
-  rw [List.filter_eq_self.2 (fun _ _ => rfl)]
+  have : (H.node j).kids.filter (fun e => allSel (H.node j).kind e.1) = (H.node j).kids :=
+    List.filter_eq_self.2 (fun _ _ => rfl)
+  rw [this]
 
 /-! ## denotations -/
 
@@ -258,7 +260,7 @@ theorem tstep_den_inv {h : Heap} {s : TState} (hw : WFHeap h) (hD : DLocal D) (h
       rw [Array.size_push]
       exact Nat.le_succ_of_le hinv.size
     · intro k hk
-      show (s.heap.push _).node k = h.node k
+      show Heap.node (s.heap.push _) k = h.node k
       rw [node_push_lt _ _ (Nat.lt_of_lt_of_le hk hinv.size)]
       exact hinv.pre k hk
     · intro p hp
@@ -354,11 +356,16 @@ theorem tstep_dedup_inv {s : TState} (hd : DedupInv s)
       exact Bool.noConfusion h1
     refine ⟨?_, ?_, ?_⟩
     · intro a ha b hb hs
-      rcases List.mem_cons.1 ha with rfl | ha <;> rcases List.mem_cons.1 hb with rfl | hb
-      · rfl
-      · exact (hnew b hb hs).elim
-      · exact (hnew a ha (sameNode_symm hs)).elim
-      · exact hd.dup a ha b hb hs
+      change a ∈ i :: s.seen at ha
+      change b ∈ i :: s.seen at hb
+      change sameNode (s.heap.node a) (s.heap.node b) = true at hs
+      rcases List.mem_cons.1 ha with ha' | ha' <;> rcases List.mem_cons.1 hb with hb' | hb'
+      · rw [ha', hb']
+      · rw [ha'] at hs
+        exact (hnew b hb' hs).elim
+      · rw [hb'] at hs
+        exact (hnew a ha' (sameNode_symm hs)).elim
+      · exact hd.dup a ha' b hb' hs
     · intro p hp
       rcases List.mem_cons.1 hp with rfl | hp
       · exact List.mem_cons_self
@@ -371,7 +378,7 @@ theorem tstep_dedup_inv {s : TState} (hd : DedupInv s)
       · exact List.mem_cons_of_mem _ (hd.closed j hj e he)
   · rw [heq]
     have hnode : ∀ j, j ∈ s.seen →
-        (s.heap.push (candidate allSel relabelId s i)).node j = s.heap.node j :=
+        Heap.node (s.heap.push (candidate allSel relabelId s i)) j = s.heap.node j :=
       fun j hj => node_push_lt _ _ (hseen j hj)
     have hnew : ∀ b, b ∈ s.seen →
         sameNode (candidate allSel relabelId s i) (s.heap.node b) = true → False := by
@@ -381,7 +388,7 @@ theorem tstep_dedup_inv {s : TState} (hd : DedupInv s)
       exact Bool.noConfusion h1
     refine ⟨?_, ?_, ?_⟩
     · intro a ha b hb hs
-      change sameNode ((s.heap.push _).node a) ((s.heap.push _).node b) = true at hs
+      change sameNode (Heap.node (s.heap.push _) a) (Heap.node (s.heap.push _) b) = true at hs
       rcases List.mem_cons.1 ha with rfl | ha <;> rcases List.mem_cons.1 hb with rfl | hb
       · rfl
       · rw [node_push_eq, hnode b hb] at hs
@@ -395,7 +402,7 @@ theorem tstep_dedup_inv {s : TState} (hd : DedupInv s)
       · exact List.mem_cons_self
       · exact List.mem_cons_of_mem _ (hd.img p hp)
     · intro j hj e he
-      change e ∈ ((s.heap.push _).node j).kids at he
+      change e ∈ (Heap.node (s.heap.push _) j).kids at he
       rcases List.mem_cons.1 hj with rfl | hj
       · rw [node_push_eq, hck] at he
         exact List.mem_cons_of_mem _ (hmk e he)
